@@ -283,7 +283,7 @@ inline ClassAdapter<PPL::Constraint_System> consys_adapter() {
   A.muts.push_back(M("print", false, [](D& s, const D*) { return io_print(s); }, true));
   A.muts.push_back(M("has_strict_inequalities", false, [](D& s, const D*) { return b2s(s.has_strict_inequalities()); }, true));
   A.muts.push_back(M("space_dimension", false, [](D& s, const D*) { return std::to_string(s.space_dimension()); }, true));
-  A.muts.push_back(M("insert(all of arg)", true, [](D& s, const D* a) { for (D::const_iterator i = a->begin(); i != a->end(); ++i) s.insert(*i); return std::string(); }));
+  A.muts.push_back(M("insert(first element of arg)", true, [](D& s, const D* a) { if (a->begin() == a->end()) return std::string("skipped"); s.insert(*a->begin()); return std::string(); }));
   A.dump = [](const D& d) { return dump_of(d); };
   A.blank = []() { return new D(); };
   A.load = [](D& d, const std::string& t) { std::istringstream s(t); return d.ascii_load(s); };
@@ -307,7 +307,7 @@ inline ClassAdapter<PPL::Generator_System> gensys_adapter() {
   A.muts.push_back(M("clear()", false, [](D& s, const D*) { s.clear(); return std::string(); }));
   A.muts.push_back(M("print", false, [](D& s, const D*) { return io_print(s); }, true));
   A.muts.push_back(M("space_dimension", false, [](D& s, const D*) { return std::to_string(s.space_dimension()); }, true));
-  A.muts.push_back(M("insert(all of arg)", true, [](D& s, const D* a) { for (D::const_iterator i = a->begin(); i != a->end(); ++i) s.insert(*i); return std::string(); }));
+  A.muts.push_back(M("insert(first element of arg)", true, [](D& s, const D* a) { if (a->begin() == a->end()) return std::string("skipped"); s.insert(*a->begin()); return std::string(); }));
   A.dump = [](const D& d) { return dump_of(d); };
   A.blank = []() { return new D(); };
   A.load = [](D& d, const std::string& t) { std::istringstream s(t); return d.ascii_load(s); };
@@ -329,7 +329,7 @@ inline ClassAdapter<PPL::Congruence_System> cgsys_adapter() {
   A.muts.push_back(M("insert(first element of itself)", false, [](D& s, const D*) { if (s.begin() == s.end()) return std::string("skipped"); s.insert(*s.begin()); return std::string(); }));
   A.muts.push_back(M("clear()", false, [](D& s, const D*) { s.clear(); return std::string(); }));
   A.muts.push_back(M("print", false, [](D& s, const D*) { return io_print(s); }, true));
-  A.muts.push_back(M("insert(all of arg)", true, [](D& s, const D* a) { for (D::const_iterator i = a->begin(); i != a->end(); ++i) s.insert(*i); return std::string(); }));
+  A.muts.push_back(M("insert(first element of arg)", true, [](D& s, const D* a) { if (a->begin() == a->end()) return std::string("skipped"); s.insert(*a->begin()); return std::string(); }));
   A.dump = [](const D& d) { return dump_of(d); };
   A.blank = []() { return new D(); };
   A.load = [](D& d, const std::string& t) { std::istringstream s(t); return d.ascii_load(s); };
